@@ -288,7 +288,7 @@ func init() {
 			return strings.HasPrefix(s, p)
 		}
 		if !pok {
-			m.unsupported("strings.HasPrefix with symbolic prefix")
+			return m.normBool(m.C.HasPrefixSym(m.strTerm(a[0]), m.strTerm(a[1])))
 		}
 		return m.normBool(m.C.HasPrefix(m.strTerm(a[0]), p))
 	})
